@@ -14,7 +14,12 @@
    items and whether it deep-copies the values carried by the diff. *)
 From Coq Require Import String.
 From Coq Require Import List NArith ZArith Bool Lia.
-From NB Require Import Base.Res Base.Json Base.PyStr Diff.DiffFormat Diff.Patch Diff.Codec.
+From NB Require Import Base.Res.
+From NB Require Import Base.Json.
+From NB Require Import Base.PyStr.
+From NB Require Import Diff.DiffFormat.
+From NB Require Import Diff.Patch.
+From NB Require Import Diff.Codec.
 Import ListNotations.
 
 Definition loc := nat.
